@@ -53,7 +53,7 @@ def statements():
                     min_size=1, max_size=8)
 
 
-def render_body(stmts, raise_at, park_at, indent):
+def render_body(stmts, raise_at, park_at, indent, exc="ValueError"):
     """-> (list of source lines, line index (0-based, within the body) of the raise statement or None)"""
     lines, raise_line = [], None
     for i, (kind, arg) in enumerate(stmts):
@@ -62,7 +62,7 @@ def render_body(stmts, raise_at, park_at, indent):
             lines.append("channel.receive()")
         if raise_at == i:
             raise_line = len(lines)
-            lines.append(f"raise ValueError('stmt-{i}')")
+            lines.append(f"raise {exc}('stmt-{i}')")
         if kind == "send":
             lines.append(f"channel.send({arg})")
         elif kind == "assign":
@@ -121,9 +121,9 @@ class Recorder:
         raise OSError("cannot explicitly close channel within remote_exec")
 
 
-def predict(stmts, raise_at, park_at, a, b):
+def predict(stmts, raise_at, park_at, a, b, exc="ValueError"):
     """what the remote run must send, computed by executing the same rendered body locally with stdio suppressed"""
-    lines, _ = render_body(stmts, raise_at, park_at, 0)
+    lines, _ = render_body(stmts, raise_at, park_at, 0, exc)
     src = "\n".join(ln for ln in lines)
     # stdio statements are side effects outside the channel: neutralise them for the local run
     src = src.replace("os.system(", "(lambda *_: 0)(").replace("os.write(", "(lambda *_: 0)(")
@@ -134,25 +134,39 @@ def predict(stmts, raise_at, park_at, a, b):
     err = None
     try:
         exec(compile(src, "<predict>", "exec"), env)
-    except ValueError as e:
+    except (ValueError, KeyError, EOFError, RuntimeError) as e:
         err = str(e)
     return rec.items, err
 
 
 def programs():
     def build(t):
-        stmts, raise_at, park_at, indent, form, a, b, extra_kw, lead = t
+        stmts, raise_at, park_at, indent, form, a, b, extra_kw, lead, exc = t
         return dict(stmts=[list(s) if not isinstance(s[1], tuple) else [s[0], list(s[1])] for s in stmts],
                     raise_at=raise_at if raise_at is not None and raise_at < len(stmts) else None,
                     park_at=park_at if park_at is not None and park_at < len(stmts) else None,
-                    indent=indent, form=form, a=a, b=V.to_json(b), extra_kw=V.to_json(extra_kw), lead=lead)
+                    indent=indent, form=form, a=a, b=V.to_json(b), extra_kw=V.to_json(extra_kw), lead=lead, exc=exc)
 
     return st.tuples(statements(), st.one_of(st.none(), st.integers(0, 7)), st.one_of(st.none(), st.none(), st.integers(0, 7)),
                      st.sampled_from([0, 4, 8]), st.sampled_from(["string", "function", "nested", "module"]),
-                     st.integers(-5, 50), V.values(max_leaves=4), V.values(max_leaves=3), st.integers(0, 12)).map(build)
+                     st.integers(-5, 50), V.values(max_leaves=4), V.values(max_leaves=3), st.integers(0, 12),
+                     st.sampled_from(["ValueError", "ValueError", "KeyError", "RuntimeError", "EOFError"])).map(build)
 
 
-REJECTS = ["closure", "global", "lambda", "wrong_first", "no_params", "decorated", "kwargs_to_string"]
+GLOBAL_DECOYS = {
+    # the function reads the module global G; something else in it merely has the same name
+    "inner_param": "    def fmt(G):\n        return [G]\n    channel.send(fmt(1))\n    channel.send(G)\n",
+    "lambda_param": "    channel.send(sorted([2, 1], key=lambda G: -G))\n    channel.send(G)\n",
+    "inner_local": "    def helper():\n        G = 2\n        return G\n    channel.send(helper() * G)\n",
+    "comprehension": "    channel.send([G for G in range(3)])\n    channel.send(G)\n",
+    "nested_use": "    def helper():\n        return G\n    channel.send(helper())\n",
+    "attribute": "    channel.send(G.real)\n",
+    "call_arg": "    channel.send(abs(G))\n",
+    "default_of_inner": "    def helper(x=G):\n        return x\n    channel.send(helper())\n",
+    "inner_cellvar": "    def outer():\n        G = 1\n        def inner():\n            return G\n        return inner()\n    channel.send(outer() + G)\n",
+}
+REJECTS = ["closure", "global", "lambda", "wrong_first", "no_params", "decorated", "kwargs_to_string"] + [
+    "global:" + k for k in GLOBAL_DECOYS]
 
 # ----------------------------------------------------------------------------- the check
 
@@ -285,6 +299,9 @@ class Exec(Part):
         elif shape == "global":
             mod, _ = self._module("import os\nG = 7\ndef f(channel):\n    channel.send(G)\n")
             src, kw = mod.f, {}
+        elif shape.startswith("global:"):
+            mod, _ = self._module("G = 7\ndef f(channel):\n" + GLOBAL_DECOYS[shape[7:]])
+            src, kw = mod.f, {}
         elif shape == "lambda":
             src, kw = (lambda channel: channel.send(1)), {}
         elif shape == "wrong_first":
@@ -326,20 +343,21 @@ class Exec(Part):
         b = V.from_json(p["b"])
         extra = V.from_json(p["extra_kw"])
         a = p["a"]
-        want_items, want_err = predict(stmts, p["raise_at"], p["park_at"], a, b)
+        exc = p.get("exc", "ValueError")
+        want_items, want_err = predict(stmts, p["raise_at"], p["park_at"], a, b, exc)
         form = p["form"]
         lead = "\n".join("# filler %d" % i for i in range(p["lead"])) + ("\n" if p["lead"] else "")
         if form == "string":
-            body, raise_line = render_body(stmts, p["raise_at"], p["park_at"], p["indent"])
+            body, raise_line = render_body(stmts, p["raise_at"], p["park_at"], p["indent"], exc)
             # a source string cannot carry arguments: a and b are literals in the text (repr() of an arbitrary value is
             # not a faithful literal - set order, -0j - so only the function forms get generated values, as kwargs)
             pre = [" " * p["indent"] + f"a = {a!r}", " " * p["indent"] + "b = 'plain'"]
-            want_items, want_err = predict(stmts, p["raise_at"], p["park_at"], a, "plain")
+            want_items, want_err = predict(stmts, p["raise_at"], p["park_at"], a, "plain", exc)
             text = "\n".join(pre + body) + "\n"
             ch = gw.remote_exec(text)
             where, line = "<remote exec>", (None if raise_line is None else raise_line + len(pre) + 1)
         elif form in ("function", "nested"):
-            body, raise_line = render_body(stmts, p["raise_at"], p["park_at"], 8 if form == "nested" else 4)
+            body, raise_line = render_body(stmts, p["raise_at"], p["park_at"], 8 if form == "nested" else 4, exc)
             if form == "function":
                 text = lead + "def f(channel, a, b=3, extra=None):\n" + "\n".join(body) + "\n"
                 mod, path = self._module(text)
@@ -356,9 +374,9 @@ class Exec(Part):
                 raise Violation("exec.pure-function-rejected", exc=e) from None
             where = path
         else:
-            body, raise_line = render_body(stmts, p["raise_at"], p["park_at"], 4)
+            body, raise_line = render_body(stmts, p["raise_at"], p["park_at"], 4, exc)
             text = lead + f"a = {a!r}\nb = 'modb'\nif __name__ == '__channelexec__':\n" + "\n".join(body) + "\n"
-            want_items, want_err = predict(stmts, p["raise_at"], p["park_at"], a, "modb")
+            want_items, want_err = predict(stmts, p["raise_at"], p["park_at"], a, "modb", exc)
             mod, path = self._module(text)
             ch = gw.remote_exec(mod)
             where, line = path, (None if raise_line is None else p["lead"] + 3 + raise_line + 1)
@@ -407,10 +425,14 @@ class Exec(Part):
             raise Violation("exec.items-differ", f"{tname}/{form}: item {i}: remote sent {got[i:i+2]!r:.200}, the local "
                             f"interpretation predicts {want_items[i:i+2]!r:.200} ({len(got)} vs {len(want_items)} items)",
                             site=form)
+        if exc == "EOFError" and want_err is not None:
+            # an EOFError leaving the body is taken as "the connection went away" and not reported; the channel must
+            # still end by itself (checked above: waitclose returned), with or without an error
+            want_err = err = None
         if (want_err is None) != (err is None):
             raise Violation("exec.error-differs", f"{tname}/{form}: predicted error {want_err!r}, remote {err and err[-300:]!r}", site=form)
         if want_err is not None:
-            if f"ValueError: {want_err}" not in err:
+            if f"{exc}: {want_err}" not in err:
                 raise Violation("exec.error-text", f"{form}: RemoteError lacks the exception text: {err[-300:]!r}", site=form)
             needle = f'File "{where}", line {line}'
             if needle not in err:
